@@ -306,6 +306,13 @@ impl Property for C14 {
         ]
     }
     fn run_case(&self, _ctx: &Ctx, case: &Case) -> Verdict {
+        if case["kind"] == "lex-raw" {
+            let Some(text) = case["text"].as_str() else { return Verdict::Skip("malformed-case") };
+            return match differential_raw(text) {
+                Ok(()) => Verdict::pass(true),
+                Err(f) => Verdict::Fail(f),
+            };
+        }
         if case["kind"] == "lex-table" {
             let mut seen: std::collections::HashMap<TokenKind, String> = std::collections::HashMap::new();
             let mut all: Vec<String> = KEYWORDS.iter().map(|s| s.to_string()).collect();
